@@ -19,7 +19,7 @@
 EXTENDS DataEmit, TLC
 
 CONSTANTS Archs, Datas, Aligns, Modes, Tids, Counts, Pools, LabelSizes, Offsets, SecKinds, ReserveSizes,
-          MaxOps, MaxLabels, MaxSecs, Bug
+          MaxOps, MaxLabels, MaxSecs, WithInst, Bug
 
 VARIABLES call,   \* the last call with its arguments and its result (for the refinement mapping)
           pend,   \* Seq: per label, number of pending fixups (LabelEntry fixup chain)
@@ -64,7 +64,7 @@ EnsureSpace(n) ==
   IF s.cap - off < n THEN GrowBuffer(s, n) ELSE [err |-> "Ok", cap |-> s.cap]
 
 (* ---- Support::mul_overflow on size_t (two steps, as written) ---- *)
-MulOvf(a, b) == LET pr == WMul(a, b) IN [v |-> SubSeq(pr, 1, 8), of |-> \E i \in 9 .. Len(pr) : pr[i] # 0]
+MulOvf(a, b) == LET pr == WMul(a, b) IN [v |-> Low64(pr), of |-> Overflows64(pr)]
 
 RECURSIVE LEBytes(_, _)
 LEBytes(d, n) == IF n = 0 THEN <<>> ELSE <<d % 256>> \o LEBytes(d \div 256, n - 1)
@@ -72,7 +72,6 @@ LEBytes(d, n) == IF n = 0 THEN <<>> ELSE <<d % 256>> \o LEBytes(d \div 256, n - 
 (* ---- state update helpers ---- *)
 Note(c) == /\ call' = c
            /\ hist' = Append(hist, c.h)
-           /\ Len(hist) < MaxOps
 (* CodeWriter: memcpy at the cursor; done(): _buffer_ptr = cursor, size = max(size, new_size) *)
 IWrite(app, capn) ==
   /\ secs' = [secs EXCEPT ![cur] = [mem |-> Overwrite(@.mem, off, app), cap |-> capn, fixed |-> @.fixed]]
@@ -152,7 +151,7 @@ Deabstract(t) == IF t \in {32, 33} THEN t + (IF RegSize >= 8 THEN 8 ELSE 6) ELSE
 ArrayResult(tid, item, ic, rc) ==
   LET ft == Deabstract(tid)
       ts == TypeSize(ft)
-      m1 == MulOvf(ic, WOf(ts))
+      m1 == MulOvf(ic, <<ts>>)
       m2 == MulOvf(m1.v, rc)
       of == (m1.of \/ m2.of) /\ Bug # "noOverflowCheck"
       tot == m2.v
@@ -167,7 +166,6 @@ ArrayResult(tid, item, ic, rc) ==
 IEmbedArray(tid, item, ic, rc) ==
   LET res == ArrayResult(tid, item, ic, rc) IN
   /\ att
-  /\ Len(item) = TypeSize(Deabstract(tid)) \/ (TypeSize(Deabstract(tid)) = 0 /\ Len(item) = 1)
   /\ IWrite(res.app, res.cap)
   /\ slots' = ISlots(res.app)
   /\ last' = Last("EmbedArray", res.r, Len(res.app), 0)
@@ -339,25 +337,28 @@ IComment ==
   /\ Note([op |-> "Comment", r |-> "Ok", app |-> <<>>, h |-> <<"Comment">>])
   /\ UNCHANGED <<arch, opt, att, secs, cur, off, labs, slots, nrel, nfix, pend>>
 
+(* the array handed to embed_data_array: item_count items of the type's size, bytes 1, 2, 3 ... *)
+ItemOf(t) == LET ts == TypeSize(Deabstract(t)) IN IF ts = 0 THEN <<1>> ELSE [i \in 1 .. ts |-> i]
+
 Next ==
-  \/ IAttach
-  \/ \E op \in {"align", "embed", "embed_data_array", "embed_const_pool", "embed_label", "embed_label_delta",
-                "bind", "set_offset", "comment"} : IDetached(op)
-  \/ \E on \in BOOLEAN : ISetOpt(on)
-  \/ \E m \in Modes, a \in Aligns : IAlign(m, a)
-  \/ \E d \in Datas : IEmbed(d)
-  \/ \E t \in Tids, d \in Datas, ic \in Counts, rc \in Counts : IEmbedArray(t, d, ic, rc)
-  \/ \E l \in 1 .. MaxLabels + 1, pl \in Pools : IEmbedConstPool(l, pl)
-  \/ \E l \in 1 .. MaxLabels + 1, sz \in LabelSizes : IEmbedLabel(l, sz)
-  \/ \E l \in 1 .. MaxLabels + 1, b \in 1 .. MaxLabels, sz \in LabelSizes : IEmbedLabelDelta(l, b, sz)
-  \/ \E l \in 1 .. MaxLabels + 1 : IBind(l)
-  \/ INewLabel
-  \/ \E o \in Offsets : ISetOffset(o)
-  \/ \E k \in SecKinds, c \in ReserveSizes : INewSection(k, c)
-  \/ \E s \in 0 .. MaxSecs : ISection(s)
-  \/ \E s \in 1 .. MaxSecs, n \in ReserveSizes : IReserve(s, n)
-  \/ IInst
-  \/ IComment
+  /\ Len(hist) < MaxOps
+  /\ \/ IAttach
+     \/ \E op \in {"align", "embed", "embed_data_array", "embed_const_pool", "embed_label", "embed_label_delta",
+                   "bind", "set_offset", "comment"} : IDetached(op)
+     \/ \E on \in BOOLEAN : ISetOpt(on)
+     \/ \E m \in Modes, a \in Aligns : IAlign(m, a)
+     \/ \E d \in Datas : IEmbed(d)
+     \/ \E t \in Tids, ic \in Counts, rc \in Counts : IEmbedArray(t, ItemOf(t), ic, rc)
+     \/ \E l \in 1 .. MaxLabels + 1, pl \in Pools : IEmbedConstPool(l, pl)
+     \/ \E l \in 1 .. MaxLabels + 1, sz \in LabelSizes : IEmbedLabel(l, sz)
+     \/ \E l \in 1 .. MaxLabels + 1, b \in 1 .. MaxLabels, sz \in LabelSizes : IEmbedLabelDelta(l, b, sz)
+     \/ (MaxLabels > 0 /\ \E l \in 1 .. MaxLabels + 1 : IBind(l))
+     \/ INewLabel
+     \/ \E o \in Offsets : ISetOffset(o)
+     \/ \E k \in SecKinds, c \in ReserveSizes : INewSection(k, c)
+     \/ (MaxSecs > 1 /\ \E s \in 0 .. MaxSecs : ISection(s))
+     \/ (MaxSecs > 1 /\ \E s \in 1 .. MaxSecs, n \in ReserveSizes : IReserve(s, n))
+     \/ (WithInst /\ (IInst \/ IComment))
 
 Spec == Init /\ [][Next]_ivars
 
@@ -390,6 +391,6 @@ PendSum == LET RECURSIVE S(_)
                S(i) == IF i = 0 THEN 0 ELSE pend[i] + S(i - 1)
            IN nfix = S(Len(pend))
 
-View == <<arch, opt, att, secs, cur, off, labs, slots, nrel, nfix, pend>>
+View == <<arch, opt, att, secs, cur, off, labs, slots, nrel, nfix, last, pend, Len(hist)>>
 Export == Len(hist) = MaxOps => PrintT(<<"BEH", <<arch, opt>>, hist>>)
 =============================================================================
